@@ -145,19 +145,19 @@ def r2_uncommitted_recognisable(P, rep, ctx):
               message="_open does not test `_ublock(-1).hdf5_hashsum is None`")
 
 
-def r2_manifest_after_commit(P, rep, ctx):
+def r2_manifest_after_commit(P, rep, ctx, rule="C11.R2"):
     fi = P.func("ih5.manifest.IH5MFRecord.commit_patch")
     g = ctx.cfg(fi)
     sup = [n.idx for n in g.nodes if any(call_attr(c) == "commit_patch" and isinstance(c.func, ast.Attribute) and isinstance(c.func.value, ast.Call) and norm(c.func.value.func) == "super" for c in g.calls(n.idx))]
     mfsave = [n.idx for n in g.nodes if any(call_attr(c) == "save" for c in g.calls(n.idx))]
     if not sup:
         raise AnalysisError("C11.R2: IH5MFRecord.commit_patch does not call super().commit_patch")
-    _order(rep, g, fi, "C11.R2", sup, mfsave, "the container commit (super().commit_patch)", "writing the manifest file")
+    _order(rep, g, fi, rule, sup, mfsave, "the container commit (super().commit_patch)", "writing the manifest file")
     # and not reachable through the exception edge of the commit: manifest write must not be inside the try protecting the commit
     for m in mfsave:
         in_try = any(isinstance(t, ast.Try) and any(x is g.nodes[m].stmt for b in t.body for x in ast.walk(b)) and any(x is g.nodes[s].stmt for s in sup for b in t.body for x in ast.walk(b)) for t in ast.walk(fi.node))
         hpath = g.find_path(m, avoid=[])
-        rep.check(not in_try, "C11.R2", fi.qual, "manifest is written outside the try block protecting the commit", fi.loc(g.nodes[m].stmt),
+        rep.check(not in_try, rule, fi.qual, "manifest is written outside the try block protecting the commit", fi.loc(g.nodes[m].stmt),
                   construct="manifest save placement", message="manifest file is written inside the try block of the container commit")
     # failed commit restores the user block
     exc = [n for n in g.nodes if n.kind == "except"]
@@ -165,5 +165,5 @@ def r2_manifest_after_commit(P, rep, ctx):
         body_nodes = g.reach([h.idx])
         resets = [n for n in body_nodes if any(call_attr(c) == "_set_ublock" for c in g.calls(n))]
         reraises = [n for n in body_nodes if isinstance(g.nodes[n].stmt, ast.Raise)]
-        rep.check(bool(resets) and bool(reraises), "C11.R2", fi.qual, "failed commit restores the in-memory user block and re-raises", fi.loc(h.stmt),
+        rep.check(bool(resets) and bool(reraises), rule, fi.qual, "failed commit restores the in-memory user block and re-raises", fi.loc(h.stmt),
                   construct="except handler of commit", message="failed container commit does not restore the old user block / does not re-raise")
